@@ -141,7 +141,8 @@ let apply_op (op : string) (t : jv) (aside : jv option) (out : string list ref) 
      | [m; n; h] when String.length m = 1 ->
        let tag = string_of_bytes (bytes_of_hex h) in
        pieces := (nat_path p, bytes_of_string (piece_of m.[0] (int_of_string n) tag)) :: !pieces;
-       (t, aside)
+       (* set_serializer replaces the userdata: a double's retained text is gone *)
+       (hop_apply (HResetSerializer (nat_path p)) t, aside)
      | _ -> raise (Stop "BADOP"))
   | 'F' ->
     if String.length op < 5 || op.[3] <> '=' then raise (Stop "BADOP");
